@@ -994,9 +994,8 @@ func defineIdentifierTypes() {
 }
 
 func parseAuthorization(p *parser) (auth ast.Authorization, err error) {
-	keyword := p.currentTokenSource()
-	switch string(keyword) {
-	case KeywordMapping:
+	switch {
+	case p.isToken(p.current, lexer.TokenIdentifier, KeywordMapping):
 		keywordPos := p.current.StartPos
 		// Skip the keyword
 		p.nextSemanticToken()
